@@ -7,6 +7,7 @@ import (
 	"os"
 	"os/exec"
 	"path/filepath"
+	"strings"
 	"sync/atomic"
 	"time"
 )
@@ -179,7 +180,13 @@ func c19Run(dir string, bin string, cs *c19Case) []string {
 		if repo == "" {
 			repo = "/repo"
 		}
-		abs := append([]string{"run", cs.Tool + ".go"}, args...)
+		// what the tool's own Makefile runs: `go run <tool>.go` on the pinned tree; a tree whose Makefile says
+		// `go run .` (or names other files) is started that way; no recipe, no case
+		target := c19MakefileTarget(filepath.Join(repo, "cmd", cs.Tool, "Makefile"))
+		if len(target) == 0 {
+			return nil
+		}
+		abs := append(append([]string{"run"}, target...), args...)
 		for i, a := range abs {
 			if a == cs.File || a == outArg {
 				abs[i] = filepath.Join(dir, a)
@@ -372,4 +379,28 @@ func checkC19(c *Ctx) {
 	c.Sample(cases[0])
 	c.Sample(cases[len(cases)-1])
 	c.Assume("only images whose end address fits 16 bits are in scope (statement)")
+}
+
+// c19MakefileTarget returns the arguments that follow `go run` in the tool's Makefile up to the first flag.
+func c19MakefileTarget(path string) []string {
+	raw, err := os.ReadFile(path)
+	if err != nil {
+		return nil
+	}
+	for _, line := range strings.Split(string(raw), "\n") {
+		f := strings.Fields(line)
+		for i := 0; i+2 < len(f); i++ {
+			if f[i] == "go" && f[i+1] == "run" {
+				var t []string
+				for _, a := range f[i+2:] {
+					if strings.HasPrefix(a, "-") {
+						break
+					}
+					t = append(t, a)
+				}
+				return t
+			}
+		}
+	}
+	return nil
 }
